@@ -400,6 +400,7 @@ fn base_scenario(shape: u64) -> Scenario {
         rebinds: vec![],
         attacks: vec![],
         evil: None,
+        tp: None,
     }
 }
 
